@@ -56,16 +56,21 @@ class OutputDataWithInjection(OutputData):
         )
 
     @staticmethod
-    def _other_label(other):
-        return (
-            other.channel.scoped_label if isinstance(other, HasChannel) else str(other)
-        )
+    def _other_key(other):
+        # Channel-like operands are identified by their scoped label; anything else by
+        # its type and repr (not str), so that, e.g., `x[1]` and `x["1"]`, or `a + 1`
+        # and `a + "1"`, do not collide on the same injected node
+        if isinstance(other, HasChannel):
+            return (other.channel.scoped_label,)
+        return (type(other).__qualname__, repr(other))
 
     def _get_injection_label(self, injection_class, *args):
-        other_labels = "_".join(self._other_label(other) for other in args)
-        suffix = f"_{other_labels}" if len(args) > 0 else ""
-        nominal_label = f"{self.scoped_label}_{injection_class.__name__}{suffix}"
-        hashed = str(hash(nominal_label)).replace("-", "m")
+        nominal_key = (
+            self.scoped_label,
+            injection_class.__name__,
+            *(self._other_key(other) for other in args),
+        )
+        hashed = str(hash(nominal_key)).replace("-", "m")
         return f"injected_{injection_class.__name__}_{hashed}"
 
     def _node_injection(self, injection_class, *args, inject_self=True):
